@@ -193,7 +193,7 @@ func (g *Gen) Mixed(id string, n, maxTx int, kinds []string) *Scenario {
 // FamilyScenario returns scenario i of a workload family, deterministic in (seed, i).
 func FamilyScenario(family string, seed int64, i, blocks, maxTx int) *Scenario {
 	gs := DefaultGenesis()
-	if family == "alleg" {
+	if family == "alleg" || family == "allegset" {
 		gs = AllegGenesis()
 	}
 	if family == "eth" {
